@@ -1,9 +1,9 @@
 package props
 
 import (
-	"encoding/json"
 	"bytes"
 	"context"
+	"encoding/json"
 	"errors"
 	"fmt"
 	"hash/fnv"
